@@ -153,6 +153,24 @@ def monitors_child(rec):
                 v.append('clone shares state with the original')
             if v:
                 bad += 1; _fail(rec, 'Grid.clone', 'clone: ' + '; '.join(v)[:300], **desc)
+            # clone with an explicit type (its own and another one): converted values, always independent of the original
+            for dt2 in (d.type, np.float64 if d.type is not np.float64 else np.float32):
+                ev += 1
+                try:
+                    c2 = g.clone(dt2)
+                    v = []
+                    if np.dtype(c2.dtype) != np.dtype(dt2) or c2.data.dtype != np.dtype(dt2):
+                        v.append('dtype %s, asked %s' % (c2.data.dtype, np.dtype(dt2)))
+                    if not np.array_equal(c2.data, g.data.astype(dt2), equal_nan=True):
+                        v.append('values differ from the converted values of the original')
+                    before = g.data.copy()
+                    c2.data.flat[0] = c2.data.flat[-1]; c2.fill(1)
+                    if not same_bits(g.data, before) or np.shares_memory(c2.data, g.data):
+                        v.append('clone(%s) shares its cell values with the original' % np.dtype(dt2))
+                    if v:
+                        bad += 1; _fail(rec, 'Grid.clone', 'clone-dtype: ' + '; '.join(v)[:300], asked=str(np.dtype(dt2)), **desc); break
+                except Exception as e:
+                    bad += 1; _fail(rec, 'Grid.clone', 'clone-dtype: raised %s %s' % (type(e).__name__, str(e)[:200]), asked=str(np.dtype(dt2)), **desc); break
             # ---- clip: values at coinciding cell centres
             if nr * nc >= 2:
                 ev += 1
